@@ -115,6 +115,23 @@ IsZero(v) == ~Truthy(v)
 CtxOf(names, vals) ==
   [nm \in {names[j] : j \in 1..Len(names)} |-> vals[SetMax({j \in 1..Len(names) : names[j] = nm})]]
 
+\* names / values visible to the expressions of a member of t once the members with a value in `vals` were read: every such
+\* member by name, and the members of anonymous structure / union members (recursively) as if they were members of t itself
+\* (finding F39).  vals[j] = [k |-> "none"] = not read yet.
+RECURSIVE FoldN(_, _, _), FoldV(_, _, _)
+FoldsInto(f, v) == f.anon /\ f.type.k \in {"struct", "union"} /\ v.k = "struct"
+FoldN(t, vals, j) ==
+  IF j > Len(vals) THEN << >>
+  ELSE IF vals[j].k = "none" THEN FoldN(t, vals, j + 1)
+  ELSE <<t.fields[j].name>> \o (IF FoldsInto(t.fields[j], vals[j]) THEN FoldN(t.fields[j].type, vals[j].vals, 1) ELSE << >>)
+       \o FoldN(t, vals, j + 1)
+FoldV(t, vals, j) ==
+  IF j > Len(vals) THEN << >>
+  ELSE IF vals[j].k = "none" THEN FoldV(t, vals, j + 1)
+  ELSE <<vals[j]>> \o (IF FoldsInto(t.fields[j], vals[j]) THEN FoldV(t.fields[j].type, vals[j].vals, 1) ELSE << >>)
+       \o FoldV(t, vals, j + 1)
+CtxFields(t, vals) == CtxOf(FoldN(t, vals, 1), FoldV(t, vals, 1))
+
 ArrLen(len, ctx, consts) ==   \* number of elements of a fixed / expression array; XX = outside the domain
   IF len.k = "fixed" THEN len.n
   ELSE LET n == EvalAst(len.e, ctx, consts) IN IF n = XX THEN XX ELSE Max2(0, n)
@@ -203,7 +220,7 @@ DecodeMembers(t, m, inp, pos, consts, j, st, dyn) ==
   THEN [ok |-> TRUE, err |-> "", v |-> [k |-> "struct", cls |-> t.name, names |-> st.names, vals |-> st.vals],
         pos |-> IF dyn /\ Len(st.sizes) > 0 THEN pos + st.sizes[Len(st.sizes)] ELSE pos, sizes |-> st.sizes, fl |-> st.fl]
   ELSE LET f == t.fields[j]
-           r == Decode(f.type, m, inp, pos, CtxOf(st.names, st.vals), consts)
+           r == Decode(f.type, m, inp, pos, CtxFields(t, st.vals), consts)
        IN IF ~r.ok THEN ErrR(r.err)
           ELSE DecodeMembers(t, m, inp, pos, consts, j + 1,
                              [names |-> Append(st.names, f.name), vals |-> Append(st.vals, r.v),
@@ -266,7 +283,7 @@ DecodeFields(t, m, inp, start, pos, i, lay, consts, st) ==
                   ELSE DecodeFields(t, m, inp, start, IF fresh THEN here + stg.size ELSE pos, i + 1, lay, consts,
                                     [st EXCEPT !.names = Append(@, f.name), !.vals = Append(@, val),
                                                !.sizes = Append(@, -1), !.unit = unit])
-          ELSE LET r == Decode(f.type, m, inp, here, CtxOf(st.names, st.vals), consts) IN
+          ELSE LET r == Decode(f.type, m, inp, here, CtxFields(t, st.vals), consts) IN
                IF ~r.ok THEN ErrR(IF r.err = "decode" /\ here + RunNeed(t, m, i) > Len(inp) THEN "eof-or-decode" ELSE r.err)
                ELSE DecodeFields(t, m, inp, start, r.pos, i + 1, lay, consts,
                                  [names |-> Append(st.names, f.name), vals |-> Append(st.vals, r.v),
